@@ -442,6 +442,11 @@ RunLoop:
 			}
 			if opcode.GetF() {
 				tbl := getReg(regs, cells, dst).AsTable()
+				if opcode.HasIndexReg() {
+					// The index to start from is not in the opcode but in a
+					// register.
+					idx = int(regs[idx].AsInt())
+				}
 				for i, v := range etc {
 					t.SetTable(tbl, IntValue(int64(i+idx)), v)
 				}
